@@ -28,6 +28,19 @@ def _call(style, name, x, *args, **kw):
     return getattr(x, name)(*args, **kw)
 
 
+def _form(seq, form):
+    """The same sequence of ints in another legal argument form."""
+    if seq is None or form is None:
+        return seq
+    if form == "list":
+        return [int(i) for i in seq]
+    if form == "np":
+        return tuple(np.int64(i) for i in seq)
+    if form == "nparray":
+        return np.array([int(i) for i in seq], dtype="int64")
+    return tuple(int(i) for i in seq)
+
+
 def run_step(step, heap):
     """Execute one step against ``heap`` (name -> value); returns the raw
     result (a value, a tuple of values, or None). Does not bind outputs."""
@@ -45,7 +58,7 @@ def run_step(step, heap):
     if op == "copy":
         return x.copy()
     if op == "transpose":
-        perm = None if a["perm"] is None else tuple(a["perm"])
+        perm = None if a["perm"] is None else _form(tuple(a["perm"]), a.get("form"))
         kw = dict(ip)
         if "phase" in a:
             kw["phase"] = a["phase"]
@@ -85,7 +98,9 @@ def run_step(step, heap):
     if op == "squeeze":
         ax = a["axis"]
         if isinstance(ax, list):
-            ax = tuple(ax)
+            ax = _form(ax, a.get("form") or "tuple")
+        elif isinstance(ax, int) and a.get("form") == "np":
+            ax = int(np.int64(ax))
         if ip:
             return x.squeeze(ax, **ip)
         return _call(st, "squeeze", x, ax)
@@ -112,7 +127,10 @@ def run_step(step, heap):
     if op == "tensordot":
         axes = a["axes"]
         if not isinstance(axes, int):
-            axes = (tuple(axes[0]), tuple(axes[1]))
+            axes = (_form(tuple(axes[0]), a.get("form") or "tuple"),
+                    _form(tuple(axes[1]), a.get("form") or "tuple"))
+            if a.get("form") == "list":
+                axes = [axes[0], axes[1]]
         kw = {}
         if "mode" in a:
             kw["mode"] = a["mode"]
@@ -524,6 +542,8 @@ def g_transpose(ctx, heap):
     perm = list(range(x.ndim))
     rng.shuffle(perm)
     a = {"perm": None if rng.random() < 0.2 else perm}
+    if a["perm"] is not None and rng.random() < 0.25:
+        a["form"] = rng.choice(["list", "np"])
     if kind_of(x) == "F" and rng.random() < 0.3:
         a["phase"] = rng.random() < 0.6
     if ctx.inplace():
@@ -719,6 +739,8 @@ def g_squeeze(ctx, heap):
     else:
         ax = rng.sample(ones, rng.randint(1, len(ones)))
     a = {"axis": ax}
+    if isinstance(ax, list) and rng.random() < 0.4:
+        a["form"] = rng.choice(["list", "np"])
     if ctx.inplace():
         a["inplace"] = True
     else:
@@ -860,6 +882,8 @@ def g_tensordot(ctx, heap):
         a["mode"] = rng.choice(["auto", "fused", "blockwise", None])
     if rng.random() < 0.25:
         a["preserve_array"] = True
+    if not isinstance(a["axes"], int) and rng.random() < 0.2:
+        a["form"] = rng.choice(["list", "np"])
     a["style"] = ctx.style("do")
     if rng.random() < 0.25:
         na, nb = nb, na
